@@ -37,6 +37,7 @@ def mkMapI (c : VCtx) (es : List Int) (withStr : Bool) (pv : Option Int) : M (Op
   match c.kind with
   | "ulog" => do let st ← ulogStrides c.T es; pure (some (.stride es st))
   | "urev" => pure (some (.right es))
+  | "ubc" => pure (some (.stride es (es.map (fun _ => 0))))      -- broadcast: all strides 0, span 1 (0 if empty)
   | "left" => pure (some (.left es))
   | "right" => pure (some (.right es))
   | "stride" => pure (if withStr then some (.stride es c.ss) else none)
@@ -62,10 +63,10 @@ def alwaysExh (c : VCtx) (pat : Pattern) (rank : Nat) : Bool :=
 def obsV (c : VCtx) (T : ITy) (pat : Pattern) (v : VView) : String :=
   let r : M String := do
     let st ← v.m.stridesM T
-    let ex ← (if c.kind == "ulog" then pure false else v.m.exhM T)
+    let ex ← (if c.kind == "ulog" || c.kind == "ubc" then pure false else v.m.exhM T)
     let es := v.m.extents
     pure (s!"h={v.h} e={fmtL es} s={fmtL st} acc={v.a} sz={mdsSizeM T es} emp={fmtB (mdsEmptyM es)} " ++
-          (if c.kind == "urev" then "fl=110110" else s!"fl=1{fmtB ex}11{fmtB (alwaysExh c pat es.length)}1") ++ s!" rk={es.length},{rankDyn pat} fw=1")
+          (if c.kind == "urev" then "fl=110110" else if c.kind == "ubc" then "fl=011001" else s!"fl=1{fmtB ex}11{fmtB (alwaysExh c pat es.length)}1") ++ s!" rk={es.length},{rankDyn pat} fw=1")
   match r with
   | .ok s => s
   | .error e => ubStr e
@@ -128,6 +129,12 @@ def vstep (c : VCtx) (s : VState) (cmd : String) : M VState := do
     match getSlot s.pool (nn 2) with
     | some v => pure { s with pool3 := Pool.put s.pool3 (nn 1) (some ⟨v.h, v.m.cast c.T, v.a⟩) }
     | none => pure { s with pool3 := Pool.put s.pool3 (nn 1) none }
+  | "c4" =>
+    -- only `default_accessor<int>` converts into `StAcc<const int>` (its converting constructor sets id 77)
+    if c.acc != "def" then pure (emit "no-ctor") else
+    match getSlot s.pool (nn 2) with
+    | some v => pure (emit ("c4 " ++ obsV c c.T2 (c.pat.map (fun _ => none)) ⟨v.h, v.m.cast c.T2, 77⟩ ++ " asg=77"))
+    | none => pure (emit "none")
   | "o3" =>
     let twin : Pattern := (List.range c.pat.length).map (fun k => match c.pat.getD k none with | some v => some v | none => some (k + 2))
     pure (emit (match getSlot s.pool3 (nn 1) with | some v => obsV c c.T twin v | none => "none"))
